@@ -152,6 +152,29 @@ CLAIMS = {
                      'guard-dominance, update-sequence extraction, finite '
                      'abstract evaluation of _choose_alg (ast)',
     },
+    'C04': {
+        'text': 'The host-trust decision procedures are evaluated as '
+                'complete decision tables by finite abstract interpretation: '
+                '_validate_host_key over {decodes as cert/x509/key, checking '
+                'enabled, revoked, trusted, application accepts} and '
+                '_validate_openssh_host_certificate over {checking, CA '
+                'revoked, CA trusted, application accepts, certificate '
+                'valid}: revoked ⇒ reject, untrusted ∧ ¬accepted ⇒ reject, a '
+                'host certificate is always validate(HOST, host)-ed, '
+                'undecodable ⇒ reject, trusted ⇒ the decoded key is '
+                'returned; SSHOpenSSHCertificate.validate accepts iff type ∧ '
+                'valid_after <= now < valid_before ∧ principal rule (864 '
+                'states with boundary times). Plus: producer/consumer order '
+                'of the seven known-hosts lists, the trust sets built from '
+                'the matching positions, client NEWKEYS only after '
+                'verify(H, sig) with the validated key (shared with C03.R3), '
+                '_kex_complete only set in send_newkeys.',
+        'note': TB + 'not decided: known_hosts pattern semantics (C17), X.509 '
+                'chain validation, that the trusted set is the right one.',
+        'technique': 'finite-domain abstract interpretation (complete '
+                     'decision tables) + tuple-order agreement + CFG '
+                     'guard-dominance (ast)',
+    },
 }
 
 PENDING = 'check not built yet in this session (planned, see DESIGN.md section 5)'
